@@ -19,6 +19,7 @@ any errors and setting a proper exit code to be passed to the end user.
 # You should have received a copy of the GNU Lesser General Public License
 # along with this program.  If not, see <http://www.gnu.org/licenses/>.
 import argparse
+import itertools
 import logging
 import sys
 
@@ -165,7 +166,12 @@ class CutplaceApp(object):
 
         try:
             with validio.Reader(self.cid, data_path, validate_until=self.validate_until) as reader:
-                reader.validate_rows()
+                rows_to_validate = reader.rows()
+                if self.validate_until is not None:
+                    # Same as cutplace.validate(): stop reading once the rows to validate have been seen.
+                    rows_to_validate = itertools.islice(rows_to_validate, self.validate_until)
+                for _ in rows_to_validate:
+                    pass
             _log.info("  accepted %d rows", reader.accepted_rows_count)
         except errors.CutplaceError as error:
             _log.error("  %s", error)
